@@ -83,8 +83,10 @@ var itemProps = [numItems]string{"text", "attachments", "quick_replies", "text",
 // property class of an item (for counters and signatures)
 func itemClass(it int) string {
 	switch it {
-	case itM1Text, itM2Text:
+	case itM1Text, itM2Text, itSayText:
 		return "msg.text"
+	case itSayAudio:
+		return "ivr.audio_url"
 	case itM1Att, itM2Att:
 		return "msg.attachments"
 	case itM1QR, itM2QR:
@@ -107,7 +109,20 @@ type c18Config struct {
 	Country string                   `json:"default_country"`
 	Grid    bool                     `json:"grid_point"`
 	Grid2   bool                     `json:"second_grid_point,omitempty"`
+	// outside the grids (random and directed points only):
+	BaseSection bool              `json:"base_language_section,omitempty"` // the localization also has a section keyed by the flow's own base language
+	Voice       bool              `json:"voice,omitempty"`                 // voice flow with a say_msg (text + audio_url)
+	VStates     [2]map[string]int `json:"-"`                               // translation states of say.text and say.audio_url
 }
+
+// the two extra items of the voice variant (not part of the grids)
+const (
+	itSayText  = numItems
+	itSayAudio = numItems + 1
+)
+
+// marker of the translations filed under the base language itself (they must never be used)
+const baseSectionMarker = "zzz"
 
 func (c *c18Config) stateTable() map[string]map[string]string {
 	out := map[string]map[string]string{}
@@ -248,6 +263,16 @@ func c18RandomPoint(r *fw.Rand) *c18Config {
 		}
 	}
 	cfg.finish(r)
+	cfg.BaseSection = r.Chance(0.2)
+	if r.Chance(0.2) {
+		cfg.Voice = true
+		for k := range cfg.VStates {
+			cfg.VStates[k] = map[string]int{}
+			for _, l := range nonBase(cfg.Base) {
+				cfg.VStates[k][l] = r.Weighted(ws)
+			}
+		}
+	}
 	return cfg
 }
 
@@ -290,6 +315,8 @@ func c18Translation(it int, lang string, state int, base []string) ([]string, bo
 			return "T" + fmt.Sprint(it) + "-" + lang
 		case "msg.attachments":
 			return attURL(lang, i)
+		case "ivr.audio_url":
+			return "http://a.io/" + lang + "-say.mp3"
 		case "msg.quick_replies":
 			return fmt.Sprintf("QR%d-%s", i, lang)
 		case "set_run_result.category", "category.name":
@@ -316,7 +343,7 @@ func c18Translation(it int, lang string, state int, base []string) ([]string, bo
 		return []string{"", " "}, true
 	}
 	switch itemClass(it) {
-	case "msg.text":
+	case "msg.text", "ivr.audio_url":
 		switch state {
 		case stSame:
 			return []string{full(0)}, true
@@ -347,9 +374,10 @@ func c18Translation(it int, lang string, state int, base []string) ([]string, bo
 }
 
 type c18Built struct {
-	scen  *gen.Scenario
-	bases [numItems][]string
-	uuids [numItems]string
+	scen    *gen.Scenario
+	bases   [numItems][]string
+	uuids   [numItems]string
+	sayUUID string
 }
 
 func buildC18(cfg *c18Config) *c18Built {
@@ -373,8 +401,16 @@ func buildC18(cfg *c18Config) *c18Built {
 	c3 := M{"uuid": gen.NamedUUID("case:r2:1"), "type": "has_category", "arguments": []string{"pick" + cfg.Base, "zz1-" + cfg.Base}, "category_uuid": r2a["uuid"]}
 	r2 := d.Switch("@results.sel", []M{r2a, r2o}, r2o, []M{c3}, nil, "R2")
 
-	flow := d.Flow("L", "messaging",
-		d.Node("n1", []any{m1, set, sel}, nil, d.Exit("n1:x", "r1")),
+	ftype := "messaging"
+	n1acts := []any{m1, set, sel}
+	var say M
+	if cfg.Voice {
+		ftype = "voice"
+		say = d.Action("say", "say_msg", M{"text": "S-base", "audio_url": "http://a.io/base-say.mp3"})
+		n1acts = []any{m1, say, set, sel}
+	}
+	flow := d.Flow("L", ftype,
+		d.Node("n1", n1acts, nil, d.Exit("n1:x", "r1")),
 		d.Node("r1", nil, r1, d.Exit("r1:a", "r2"), d.Exit("r1:b", "r2"), d.Exit("r1:o", "r2")),
 		d.Node("r2", nil, r2, d.Exit("r2:a", "n3"), d.Exit("r2:o", "n3")),
 		d.Node("n3", []any{m2}, nil, d.Exit("n3:x", "")))
@@ -400,6 +436,30 @@ func buildC18(cfg *c18Config) *c18Built {
 			}
 		}
 	}
+	if cfg.Voice {
+		b.sayUUID = say["uuid"].(string)
+		for k, prop := range []string{"text", "audio_url"} {
+			base := [][]string{{"S-base"}, {"http://a.io/base-say.mp3"}}[k]
+			for _, l := range nonBase(cfg.Base) {
+				if tr, ok := c18Translation(itSayText+k, l, cfg.VStates[k][l], base); ok {
+					setLoc(loc, l, b.sayUUID, prop, tr)
+				}
+			}
+		}
+	}
+	if cfg.BaseSection {
+		// translations filed under the flow's own base language (left over from a change of base language, say): the base
+		// language is served by the definition itself, so none of these may ever show up
+		for it := 0; it < numItems; it++ {
+			if tr, ok := c18Translation(it, baseSectionMarker, stSame, b.bases[it]); ok {
+				setLoc(loc, cfg.Base, b.uuids[it], props[it], tr)
+			}
+		}
+		if cfg.Voice {
+			setLoc(loc, cfg.Base, b.sayUUID, "text", []string{"T15-" + baseSectionMarker})
+			setLoc(loc, cfg.Base, b.sayUUID, "audio_url", []string{"http://a.io/" + baseSectionMarker + "-say.mp3"})
+		}
+	}
 	flow["localization"] = loc
 
 	ct := d.Contact()
@@ -409,6 +469,9 @@ func buildC18(cfg *c18Config) *c18Built {
 		ct["language"] = cfg.Contact
 	}
 	trig := d.Manual("L", ct)
+	if cfg.Voice {
+		trig["call"] = M{"uuid": gen.NamedUUID("call"), "channel": M{"uuid": gen.NamedUUID("chan:android"), "name": "Android"}, "urn": "tel:+12065551212"}
+	}
 	env := M{"date_format": "YYYY-MM-DD", "time_format": "tt:mm", "timezone": "UTC", "allowed_languages": cfg.Allowed}
 	if cfg.Country != "" {
 		env["default_country"] = cfg.Country
@@ -438,7 +501,9 @@ func (p *c18) Rule() string {
 var c18Directed = []string{"blank-translations", "argument-list-lengths", "contact-language-not-allowed", "base-is-default", "no-allowed-languages", "contact-is-base-default-translated",
 	"text-less-attachments", "text-less-quick-replies", "text-less-empty", "text-less-dropped-attachment", "nothing-translated", "second-preference-wins", "independent-properties",
 	"all-empty-pair-translations", "all-empty-triple-translations", "all-empty-before-base", "first-element-empty-translations", "last-element-empty-translations", "whitespace-translations",
-	"empty-and-whitespace-translations", "text-less-all-empty-lists", "mixed-empty-shapes"}
+	"empty-and-whitespace-translations", "text-less-all-empty-lists", "mixed-empty-shapes",
+	"base-section-contact-is-base", "base-section-nothing-else-translated", "base-section-base-is-default",
+	"voice-text-and-recording-in-different-languages", "voice-recording-only-translated", "voice-text-only-translated", "voice-whitespace-text"}
 
 func (p *c18) Directed() []string { return c18Directed }
 
@@ -811,6 +876,57 @@ func (p *c18) check(res *fw.Result, h *harness, cfg *c18Config, b *c18Built, rec
 					viol("msg.locale."+from, cfg.label(want), cfg.label(obsLang), fmt.Sprintf("%s locale is %q but the language used for its %s is %q (text %q from %s, attachments %q from %s, quick replies %q from %s)", name, m.Locale, strings.TrimPrefix(from, "from_"), want, txt[0], tl, att, al, qrs, ql),
 						map[string]any{"message": name, "observed_locale": m.Locale, "expected_language": want, "accepted_languages": cands, "text_language": tl, "attachments_language": al, "quick_replies_language": ql})
 				}
+			}
+		}
+	}
+
+	// ---------------- say_msg of the voice variant: text and recording are localized independently, the locale is the text's
+	if cfg.Voice {
+		var ivr []sprintEvent
+		for _, e := range sprintEvents(rec) {
+			if e.Type == "ivr_created" && e.Msg != nil {
+				ivr = append(ivr, e)
+			}
+		}
+		txt, tl := flow.resolve(chain, b.sayUUID, "text", []string{"S-base"})
+		aud, al := flow.resolve(chain, b.sayUUID, "audio_url", []string{"http://a.io/base-say.mp3"})
+		wantText, wantURL := strings.TrimSpace(txt[0]), aud[0]
+		res.Count("clause.ivr", 1)
+		switch {
+		case wantText == "" && wantURL == "":
+			res.Count("ivr.nothing_to_say", 1)
+			if len(ivr) != 0 {
+				viol("ivr.created", "none", cfg.label(langOf(cfg, ivr[0].Msg.Text+" "+strings.Join(ivr[0].Msg.Attachments, " "))), "say_msg created a message although neither its text nor its recording resolve to anything", map[string]any{"observed": ivr[0].Msg})
+			}
+		case len(ivr) != 1:
+			res.Count("skip.unexpected_ivr_count", 1)
+		default:
+			m := ivr[0].Msg
+			res.Count("clause.ivr.text", 1)
+			if m.Text != wantText {
+				viol("ivr.text", cfg.label(tl), cfg.label(langOf(cfg, m.Text)), fmt.Sprintf("say_msg text is %q, the reference chain %v gives %q (%s)", m.Text, chain, wantText, tl), map[string]any{"observed": m.Text, "expected": wantText, "expected_language": tl})
+			}
+			wantAtt := []string{}
+			if wantURL != "" {
+				wantAtt = []string{"audio:" + wantURL}
+			}
+			res.Count("clause.ivr.audio_url", 1)
+			if !eqStrings(m.Attachments, wantAtt) {
+				viol("ivr.audio_url", cfg.label(al), cfg.label(langOf(cfg, strings.Join(m.Attachments, " "))), fmt.Sprintf("say_msg recording is %v, the reference chain %v gives %q (%s)", m.Attachments, chain, wantURL, al), map[string]any{"observed": m.Attachments, "expected": wantAtt, "expected_language": al})
+			}
+			if tl != al {
+				res.Count("seen.ivr_text_and_recording_differ_in_language", 1)
+			}
+			// locale: the language used for the text; a message whose text is nothing but white space may also name the recording's
+			cands := []string{tl}
+			if wantText == "" {
+				res.Count("silent.ivr_textless_locale", 1)
+				cands = []string{tl, al}
+			}
+			res.Count("clause.ivr.locale", 1)
+			if obs := strings.SplitN(m.Locale, "-", 2)[0]; !contains(cands, obs) {
+				viol("ivr.locale", cfg.label(tl), cfg.label(obs), fmt.Sprintf("say_msg locale is %q but its text %q was taken from %s (recording from %s)", m.Locale, wantText, tl, al),
+					map[string]any{"observed_locale": m.Locale, "text_language": tl, "recording_language": al})
 			}
 		}
 	}
